@@ -1,1 +1,3 @@
-From ZC Require Import Model.Base Model.Node.
+(* C07's Coq half needs no driver of its own: the sender is replayed through Corr/Node.v (C08/C09/C17), the receiving cache through
+   Corr/C05.v and Corr/C04.v, the lookup through Corr/C18.v; this file only makes Model/Link.v part of the checked build. *)
+From ZC Require Import Model.Base Model.Node Model.Link.
